@@ -147,16 +147,17 @@ def bind_scripted(controller, sweeper_cls, table, default=1.0):
     sweeper_cls.current_steps = {id(S.levels[0]): S for S in controller.MS}
 
 
-def scalar_description(lam=-1.0, dt=0.1, maxiter=2, restol=-1.0, num_nodes=2, quad_type='RADAU-RIGHT', QI='IE', levels=1, extra_cc=None, sweeper=None, nsweeps=None, node_type='LEGENDRE', initial_guess='spread', residual_type='full_abs'):
+def scalar_description(lam=-1.0, dt=0.1, maxiter=2, restol=-1.0, num_nodes=2, quad_type='RADAU-RIGHT', QI='IE', levels=1, extra_cc=None, sweeper=None, nsweeps=None, node_type='LEGENDRE', initial_guess='spread', residual_type='full_abs', coll_update=False):
     """cheap scalar Dahlquist description (fixture LinVec with 1x1 matrix so that call counters exist)"""
     from pySDC.implementations.transfer_classes.TransferMesh_NoCoarse import mesh_to_mesh as nocoarse
 
-    nn = num_nodes if levels == 1 else [num_nodes] + [max(1, num_nodes - 1 - i) for i in range(levels - 1)]
+    lo = 2 if quad_type in ('LOBATTO', 'RADAU-LEFT') else 1
+    nn = num_nodes if levels == 1 else [num_nodes] + [max(lo, num_nodes - 1 - i) for i in range(levels - 1)]
     desc = {
         'problem_class': F.LinVec,
         'problem_params': {'A': np.array([[lam]]), 'g': None},
         'sweeper_class': sweeper or generic_implicit,
-        'sweeper_params': {'num_nodes': nn, 'quad_type': quad_type, 'node_type': node_type, 'QI': QI, 'initial_guess': initial_guess},
+        'sweeper_params': {'num_nodes': nn, 'quad_type': quad_type, 'node_type': node_type, 'QI': QI, 'initial_guess': initial_guess, 'do_coll_update': coll_update},
         'level_params': {'dt': dt, 'restol': restol, 'residual_type': residual_type},
         'step_params': {'maxiter': maxiter},
         'convergence_controllers': dict(extra_cc or {}),
